@@ -15,9 +15,11 @@ from .. import lib
 SRC = {"lit_int": "5", "lit_str": '"lit"', "lit_neg": "-5", "lit_compl": "~5", "lit_plus": "+5", "lit_fold": "(2 + 3)", "cv_int": "CV_INT", "cv_str": "CV_STR", "cv_vec": "CV_VEC", "cv_map": "CV_MAP", "gc_int": "G_CI",
        "cref_int": "cref_int()", "cptr_int": "cptr_int()", "cref_str": "cref_str()", "cref_vec": "cref_vec()", "cref_map": "cref_map()",
        "cref_tk": "tk_cref()", "cptr_tk": "tk_cptr()", "csp_tk": "CSP_TK", "cw_int": "CW_INT",
+       "cx_int": "CX_INT", "cx_str": "CX_STR", "cxp_int": "CXP_INT", "cxsp_tk": "CXSP_TK",
        "nc_int": "NC_INT", "nc_str": "NC_STR", "nc_vec": "NC_VEC", "nc_map": "NC_MAP", "nc_tk": "NC_TK"}
 # which C++-side value each source is (None: the value lives only in the script / is a temporary)
 CVAL = {"cv_int": "cv_int", "cv_str": "cv_str", "cv_vec": "cv_vec", "cv_map": "cv_map", "cref_int": "c_int", "cptr_int": "c_int", "cw_int": "c_int",
+        "cx_int": "x_int", "cx_str": "x_str", "cxp_int": "xp_int", "cxsp_tk": "xsp_tk",
         "cref_str": "c_str", "cref_vec": "c_vec", "cref_map": "c_map", "cref_tk": "c_tk", "cptr_tk": "c_tk", "csp_tk": "csp_tk",
         "nc_int": "nc_int", "nc_str": "nc_str", "nc_vec": "nc_vec", "nc_map": "nc_map", "nc_tk": "nc_tk"}
 CONTROL = {"int": "nc_int", "str": "nc_str", "vec": "nc_vec", "map": "nc_map", "tk": "nc_tk"}
